@@ -28,10 +28,14 @@ func verifH_C04_rules2() {
 	// rules that need another document text (fields next to a $ref only exist in the text)
 	var opts []ValidationOption
 	accept := false // the options in force switch the violated rule off
+	knownNested := false
 	const refP = `{"$ref":"#/components/parameters/Id"}`
 	const refR = `"200":{"$ref":"#/components/responses/R"}`
 	if rule == 0 {
-		switch verifChoose("how", 6) {
+		switch verifChoose("how", 7) {
+		case 6: // a field next to a $ref that stands below a schema (a property), not directly under components
+			text = strings.Replace(text, `"n":{"$ref":"#/components/schemas/S"}`, `"n":{"$ref":"#/components/schemas/S","bogus":1}`, 1)
+			knownNested = true
 		case 0: // a field next to a $ref
 			text = strings.Replace(text, refP, `{"$ref":"#/components/parameters/Id","description":"d"}`, 1)
 		case 1: // ... allowed by name
@@ -672,6 +676,8 @@ func verifH_C04_rules2() {
 	}
 	err := doc.Validate(ctx, opts...)
 	verifReach("violated")
+	// known finding: reference objects below a schema are not checked for fields next to the $ref
+	verifKnown("C04-nested-ref-siblings-unchecked", knownNested)
 	if accept {
 		verifReach("switched")
 		verifAssert(err == nil, "C04 rules2: the options in force switch the rule off (or it is no rule by default)")
